@@ -196,7 +196,7 @@ func runImpl(k *hcase, in string) (res result) {
 					b = nil
 				}
 				captured[s.SequenceNo] = b
-				res.tokens = append(res.tokens, fmt.Sprintf("S:%d:%s", s.SequenceNo, Hx(b)))
+				res.tokens = append(res.tokens, fmt.Sprintf("S:%d:%d:%s", s.SequenceNo, ticksOf(s.Duration), Hx(b)))
 				res.segsDone++
 			}
 		}
@@ -317,8 +317,8 @@ func runImpl(k *hcase, in string) (res result) {
 	if !res.panicked {
 		query()
 		readHeld()
-		if !k.disk {
-			res.tokens = append(res.tokens, "C:"+Hx(sg.VerifCurrentBytes()))
+		if cur, ok, _, _ := sg.VerifCurrent(); ok && !k.disk {
+			res.tokens = append(res.tokens, fmt.Sprintf("C:%d:%s", cur.SequenceNo, Hx(sg.VerifCurrentBytes())))
 		}
 	}
 	sg.Close()
@@ -577,11 +577,11 @@ func run(c *Ctx) {
 		for _, d := range []int64{8998, 8999, 9000, 9001, 4500, 1} {
 			cases = append(cases, shortCase(c, d))
 		}
-		n := c.Budget(300, 4000)
+		n := c.Budget(300, 3000)
 		for i := 0; i < n; i++ {
 			cases = append(cases, genCase(c))
 		}
-		nw := c.Budget(8, 60)
+		nw := c.Budget(8, 30)
 		for i := 0; i < nw; i++ {
 			cases = append(cases, genWireCase(c))
 		}
